@@ -155,7 +155,21 @@ def ev_call(ex, n, st, spec, b):
                         raise Unsupported("** argument")
                 else:
                     kws[k.arg] = E(k.value)
-            return call_value(ex, fv, [E(a) for a in n.args], kws, st, n, spec)
+            pos = []
+            for a in n.args:
+                if isinstance(a, ast.Starred):
+                    v = E(a.value)
+                    if isinstance(v, Opt):
+                        v = v.val if spec else ex.need_not_none(v, st, n, "star-argument")
+                    if isinstance(v, TupV):
+                        pos += list(v.items)
+                    elif isinstance(v, ListV) and all(z3.is_true(g) for g, _ in v.items):
+                        pos += [i for _, i in v.items]
+                    else:
+                        raise Unsupported("star-argument of symbolic shape")
+                else:
+                    pos.append(E(a))
+            return call_value(ex, fv, pos, kws, st, n, spec)
     if isinstance(f, ast.Name) and f.id == "sum" and n.args and isinstance(n.args[0], (ast.GeneratorExp, ast.ListComp)):
         n.args[0]._sum_context = True
     args = []
